@@ -241,6 +241,8 @@ def trace_corr(mode, module, ntraces, relevant, rule, nontrivial, corpus_dir=Non
         if rc != 0:
             raise RuntimeError('harness %s mode failed: %s' % (mode, err[-500:]))
         traces += [json.loads(l) for l in lines]
+        if hasattr(mod, 'prepare'):
+            traces = [mod.prepare(t) for t in traces]
         shards = max(1, min(ctx.NPROC, len(traces)))
         wd = os.path.join(ctx.BUILD, 'cases', cid)
         os.makedirs(wd, exist_ok=True)
@@ -317,6 +319,26 @@ register('C02', corr=trace_corr('gateway', 'gwcases', (48, 1600), lambda op, cod
          assumptions=['collision-freedom only as the explicit hypothesis of c02_binding'])
 register('C03', corr=trace_corr('gateway', 'gwcases', (48, 1600), lambda op, code: op['op'] in ('rotate', 'transferOp', 'init') and code & 9, GW_RULE, gw_nontrivial),
          assumptions=['block time monotone (now >= last rotation timestamp) and below 2^64; the upgrade endpoint is not modelled'])
+
+
+TM_RULE = ('histories generated by harness/src/tm_mode.rs (seed=VERIF_SEED): a token manager of each of the five types deployed with a user account as its service; '
+           'give/take with amounts around the limit (L-1, L, L+1, 1, random), right/wrong token, one/two payments, limit changes by limiters and strangers, time steps to and across '
+           'six-hour epoch boundaries; all role endpoints by every caller class (service, operator, minter, flow limiter, stranger); direct mint/burn; deployInterchainToken with '
+           'harness-scheduled issuance callbacks (success / failure). Every step compares status, return data, events, storage diff and balance diff with the Coq model. '
+           'distinct = distinct operation sequences; non-trivial = at least one accepted and one rejected give/take/role operation')
+
+
+def tm_nontrivial(tr):
+    oks = [s['res']['ok'] for s in tr['steps']]
+    return any(oks) and not all(oks)
+
+
+register('C09', corr=trace_corr('tm', 'tmcases', (60, 2000), lambda op, code: op['op'] in ('give', 'take', 'setLimit', 'init') and code & 25, TM_RULE, tm_nontrivial),
+         assumptions=['block timestamp below 2^64; amounts are unbounded naturals (BigUint)'])
+register('C10', corr=trace_corr('tm', 'tmcases', (60, 2000), lambda op, code: op['op'] != 'setLimit' and code & 31, TM_RULE, tm_nontrivial),
+         assumptions=['the manager holds the ESDT local mint/burn roles of its token (granted by the harness as the token owner would)',
+                      'unsolicited deposits into a manager are outside the model (managers are non-payable except through their own endpoints)',
+                      'zero-amount giveToken is not generated (the debug VM rejects zero-value ESDT transfers from an account without that token)'])
 
 
 # ------------------------------------------------------------------ replay
